@@ -200,7 +200,7 @@ EXTRA = {
     "C19": "Added: an image whose inode references need more than 32 bits, further operation alphabets per reader kind (fragment + data block cached, path resolution, "
            "low-level xattr walk).",
 }
-EXTRA2 = {'C01': ' Later: --set-uid / --set-gid / defaults alone and combined, 65535/65536 distinct ids placed in uid only / gid only / last entry, rdsquashfs unpack status judged strictly. dense file > 4 GiB.', 'C02': " Later: 31-byte and (B-1)-byte identical tails, every history of <=2 (thorough 3) blocks through each of 13 compressor configurations (engines/hist/comp_hist.c: result equals a fresh compressor's), per-execution watchdog in the explorer (a spinning execution is a livelock violation), TSan pass over every compressor and option set. zero tails behind data blocks (schedule harness and CLI grid). compressor histories with the block processor's output capacity (block size); CLI input mixing incompressible and compressible blocks.", 'C04': ' Later: image-first phase with --subdir / --keep-as-dir / --root-becomes option sets on a tree with string-prefix sibling names; mtime of explicit entries for implicitly created directories. old-GNU sparse maps with 4..6 / 25..27 (thorough 45..49) entries.', 'C05': ' Later: base images with long symlink targets/names, without tail packing (small files as data blocks), NUL inside symlink targets, per-run hang limits with a cap of confirmed hangs.', 'C06': " Later: listings of four entries in all 24 orders, case-variant names, inode-type filter options with honest and lying entry types, 'mirror' images whose directories spell the absolute path of an outside object (xattr/chmod/utimens must stay inside). unpack roots that are not fresh (symlink / file / directory left under the image's name).", 'C08': ' Later: configurations with -e, -T, -B; runs longer than the compare buffer. holes (all-zero blocks) leading / inside / trailing in block runs.', 'C09': ' Later: block-processor scenarios at backlog 1, 2, 3 with compressor/writer failure at every call. 2 workers x 4 items in quick (gap in the done list at submit).', 'C10': ' Later: tails in different fragment blocks with streams consumed in pieces, corrupted compressed data / inode-table blocks in gensquashfs-written images (decompressor state), streams with interleaved positional reads. reads strictly inside compressed blocks, damaged second block. reload histories: fragment table / xattr reader / id table loaded again (genuine and 4 altered super blocks) between queries, reference = fresh readers that saw the reloads only.', 'C11': " Later: hidden names with hard links (T6). names beginning with '..' and names sorting around '.' and '..'.", 'C12': ' Added: long symlinks, big xattrs, files larger than the stream buffers, many-blocks inode, xattr dump; an undisturbed run that fails only in the controller build is compared with the plain build; per-plan hang limits. lock-step pipes (chunk handed over only after the tool blocked in read), pack file through /dev/stdin.', 'C13': ' Later: many-blocks inode (block-size list longer than a metadata block), big files through every tool. --no-tail-packing scenarios.', 'C14': " Later: the undisturbed image must hold exactly the input's file contents; dedup-truncate scenario (runs overlapping their own start). holes (leading / embedded / trailing) in the dedup-truncate scenario.", 'C15': ' Later: archives of odd-sized members larger than the staging buffers in both directions, input delivered in short reads (read caps 1..511 bytes).', 'C16': " Later: listings longer than the 128 KiB stream buffer with the interesting byte placed on the boundary; carriage return. names that begin or end with dots ('...', '..data', 'a..').", 'C17': ' Later: each flag with -T, flag leakage between neighbouring files (LEAK family), files whose partial last block is all zero x every flag x -T. export family: every subset of five hard links x -e / -e -T / sort file, every export entry validated.', 'C19': ' Later: an image with 600 xattr sets (second id block) read through copies. failed copies: the k-th allocation inside sqfs_copy fails, for every k.', 'C03': ' device block sizes that are not a power of two. directories with UTF-8 / high-byte names that have children, next to ASCII siblings.', 'C07': ' trailing garbage and second members behind every compressed wrapper.', 'C18': ' Added: tar2sqfs / sqfs2tar --root-becomes, rdsquashfs unpack path with attributes, tar2sqfs --exclude-dir (pattern and member name) funnels.'}
+EXTRA2 = {'C01': ' Later: --set-uid / --set-gid / defaults alone and combined, 65535/65536 distinct ids placed in uid only / gid only / last entry, rdsquashfs unpack status judged strictly. dense file > 4 GiB.', 'C02': " Later: 31-byte and (B-1)-byte identical tails, every history of <=2 (thorough 3) blocks through each of 13 compressor configurations (engines/hist/comp_hist.c: result equals a fresh compressor's), per-execution watchdog in the explorer (a spinning execution is a livelock violation), TSan pass over every compressor and option set. zero tails behind data blocks (schedule harness and CLI grid). compressor histories with the block processor's output capacity (block size); CLI input mixing incompressible and compressible blocks.", 'C04': ' Later: image-first phase with --subdir / --keep-as-dir / --root-becomes option sets on a tree with string-prefix sibling names; mtime of explicit entries for implicitly created directories. old-GNU sparse maps with 4..6 / 25..27 (thorough 45..49) entries.', 'C05': ' Later: base images with long symlink targets/names, without tail packing (small files as data blocks), NUL inside symlink targets, per-run hang limits with a cap of confirmed hangs.', 'C06': " Later: listings of four entries in all 24 orders, case-variant names, inode-type filter options with honest and lying entry types, 'mirror' images whose directories spell the absolute path of an outside object (xattr/chmod/utimens must stay inside). unpack roots that are not fresh (symlink / file / directory left under the image's name).", 'C08': ' Later: configurations with -e, -T, -B; runs longer than the compare buffer. holes (all-zero blocks) leading / inside / trailing in block runs.', 'C09': ' Later: block-processor scenarios at backlog 1, 2, 3 with compressor/writer failure at every call. 2 workers x 4 items in quick (gap in the done list at submit).', 'C10': ' Later: tails in different fragment blocks with streams consumed in pieces, corrupted compressed data / inode-table blocks in gensquashfs-written images (decompressor state), streams with interleaved positional reads. reads strictly inside compressed blocks, damaged second block. reload histories: fragment table / xattr reader / id table loaded again (genuine and 4 altered super blocks) between queries, reference = fresh readers that saw the reloads only.', 'C11': " Later: hidden names with hard links (T6). names beginning with '..' and names sorting around '.' and '..'.", 'C12': ' Added: long symlinks, big xattrs, files larger than the stream buffers, many-blocks inode, xattr dump; an undisturbed run that fails only in the controller build is compared with the plain build; per-plan hang limits. lock-step pipes (chunk handed over only after the tool blocked in read), pack file through /dev/stdin.', 'C13': ' Later: many-blocks inode (block-size list longer than a metadata block), big files through every tool. --no-tail-packing scenarios.', 'C14': " Later: the undisturbed image must hold exactly the input's file contents; dedup-truncate scenario (runs overlapping their own start). holes (leading / embedded / trailing) in the dedup-truncate scenario.", 'C15': ' Later: archives of odd-sized members larger than the staging buffers in both directions, input delivered in short reads (read caps 1..511 bytes).', 'C16': " Later: listings longer than the 128 KiB stream buffer with the interesting byte placed on the boundary; carriage return. names that begin or end with dots ('...', '..data', 'a..').", 'C17': ' Later: each flag with -T, flag leakage between neighbouring files (LEAK family), files whose partial last block is all zero x every flag x -T. export family: every subset of five hard links x -e / -e -T / sort file, every export entry validated.', 'C19': ' Later: an image with 600 xattr sets (second id block) read through copies. failed copies: the k-th allocation inside sqfs_copy fails, for every k. compressor kinds with every option at a non-default value.', 'C03': ' device block sizes that are not a power of two. directories with UTF-8 / high-byte names that have children, next to ASCII siblings.', 'C07': ' trailing garbage and second members behind every compressed wrapper.', 'C18': ' Added: tar2sqfs / sqfs2tar --root-becomes, rdsquashfs unpack path with attributes, tar2sqfs --exclude-dir (pattern and member name) funnels. path field of every pack-file line type (dir, slink, nod, pipe, sock, glob) with an exact-tree oracle.'}
 for _pid, _txt in EXTRA2.items():
     EXTRA[_pid] = EXTRA.get(_pid, "Added:") + _txt
 for _pid, _txt in EXTRA.items():
